@@ -173,19 +173,22 @@ def gen_unit(rng):
         lines += ["VAR_EXTERNAL%s" % q, "  %s : INT;" % _case(rng, rng.choice(POOL)), "END_VAR"]
     lines += ["z := 1;", "END_PROGRAM"]
     out.append("\n".join(lines))
-    if rng.random() < 0.8:
-        lines = ["CONFIGURATION Cf0"]
+    # zero to three configurations, each with one or two resources: the task names of one resource say nothing about another
+    for ci in range(rng.choice([0, 1, 1, 1, 2, 2, 3])):
+        lines = ["CONFIGURATION Cf%d" % ci]
         if rng.random() < 0.7:
             q = rng.choice(["", " CONSTANT", " CONSTANT"])
             lines += ["  VAR_GLOBAL%s" % q] + ["    %s : INT := 7;" % _case(rng, v) for v in rng.sample(POOL, rng.randint(1, 2))] + ["  END_VAR"]
-        tasks = rng.sample(POOL, rng.randint(0, 2))
-        lines += ["  RESOURCE Rs0 ON PLC"]
-        for t in tasks:
-            lines.append("    TASK %s(INTERVAL := T#100ms, PRIORITY := 1);" % _case(rng, t))
-        for j in range(rng.randint(1, 3)):
-            w = " WITH %s" % _case(rng, rng.choice(POOL)) if rng.random() < 0.7 else ""
-            lines.append("    PROGRAM r%d%s : %s;" % (j, w, prog))
-        lines += ["  END_RESOURCE", "END_CONFIGURATION"]
+        for ri in range(rng.choice([1, 1, 2])):
+            tasks = rng.sample(POOL[:4], rng.randint(0, 2))
+            lines += ["  RESOURCE Rs%d_%d ON PLC" % (ci, ri)]
+            for t in tasks:
+                lines.append("    TASK %s(INTERVAL := T#100ms, PRIORITY := 1);" % _case(rng, t))
+            for j in range(rng.randint(1, 3)):
+                w = " WITH %s" % _case(rng, rng.choice(POOL[:4])) if rng.random() < 0.7 else ""
+                lines.append("    PROGRAM r%d_%d_%d%s : %s;" % (ci, ri, j, w, prog))
+            lines += ["  END_RESOURCE"]
+        lines += ["END_CONFIGURATION"]
         out.append("\n".join(lines))
     rng.shuffle(out)
     return "\n\n".join(out) + "\n"
